@@ -557,22 +557,26 @@ def ncc_loss(
     if source.shape != target.shape:
         raise ValueError("ncc_loss() 'source' must have same shape as 'target'")
 
+    if mask is not None:
+        mask = masked_loss(torch.ones_like(source, dtype=torch.float), mask, "ncc_loss")
+        mask = mask.reshape(mask.shape[0], -1)
     source = source.reshape(source.shape[0], -1).float()
     target = target.reshape(source.shape[0], -1).float()
 
-    source_mean = source.mean(dim=1, keepdim=True)
-    target_mean = target.mean(dim=1, keepdim=True)
-
-    x = source.sub(source_mean)
-    y = target.sub(target_mean)
+    if mask is None:
+        x = source.sub(source.mean(dim=1, keepdim=True))
+        y = target.sub(target.mean(dim=1, keepdim=True))
+    else:
+        wsum = mask.sum(dim=1, keepdim=True)
+        x = source.sub(source.mul(mask).sum(dim=1, keepdim=True).div(wsum)).mul(mask)
+        y = target.sub(target.mul(mask).sum(dim=1, keepdim=True).div(wsum)).mul(mask)
 
     a = x.mul(y).sum(dim=1)
     b = x.square().sum(dim=1)
     c = y.square().sum(dim=1)
 
     loss = a.square_().div_(b.mul_(c).add_(epsilon)).neg_().add_(1)
-    loss = masked_loss(loss, mask, "ncc_loss")
-    loss = reduce_loss(loss, reduction, mask)
+    loss = reduce_loss(loss, reduction)
     return loss
 
 
